@@ -1,8 +1,190 @@
-import YouVerif.C12.Gen
+/-
+C12 — property theorems (only).  "Protocol version changes only by a quorum of block votes, at the
+announced round; every header an honest builder derives is accepted by the verifier."
+
+All statements are about `Gen.verify` / `Gen.process`, the Lean functions REGENERATED from
+/repo/core/protocol_version_processor.go on every check run (YouVerif/C12/Gen.lean), and about
+`Gen.shippedTables`, regenerated from `params.Versions` of the three networks (GenConsts.lean).
+Vocabulary (`ValidChain`, `Link`, `approvers`, `openedAt`, `ParamsOK`, `VerifySpec`) is in Spec.lean.
+-/
+import YouVerif.C12.Proofs
+import YouVerif.C12.GenConsts
 namespace YouVerif.C12.Props
 open YouVerif.C12
 
-/-- placeholder while the skeleton is brought up -/
-theorem skeleton_sanity : (Gen.verify (fun _ => none) {} {}).1 = .crash := by decide
+/-- The generated verifier accepts exactly the readable specification `VerifySpec`. -/
+theorem verifier_is_spec (V : Versions) (p c : Hdr) :
+    (Gen.verify V p c).1 = .ok ↔ VerifySpec V p c := verify_ok_iff V p c
+
+/-- The verifier never modifies the header it verifies. -/
+theorem verifier_pure : Gen.verifyWritesCurr = false := rfl
+
+/-- **Version changes only at the announced switch round, to the announced version** — for a single
+accepted link, with no assumption on the parent, the parameter table or the header fields. -/
+theorem version_changes_only_at_switch (V : Versions) (p c : Hdr)
+    (hacc : (Gen.verify V p c).1 = .ok) (hchg : c.currVersion ≠ p.currVersion) :
+    p.nextSwitchOn = c.number % U64 ∧ c.currVersion = p.nextVersion ∧
+      c.nextVersion = 0 ∧ c.nextApprovals = 0 ∧ c.nextVoteBefore = 0 ∧ c.nextSwitchOn = 0 := by
+  obtain ⟨P, _, h⟩ := (verify_ok_iff V p c).1 hacc
+  simp only at h
+  split at h
+  · rename_i hsw; exact ⟨hsw, h.1.symm, h.2.1, h.2.2.2.2.1, h.2.2.1, h.2.2.2.1⟩
+  · exact absurd h.1 hchg
+
+/-- **Each block adds at most one approval, and only inside the voting window**; the window end and the
+switch round of an open proposal never move. -/
+theorem one_approval_per_block_in_window {V : Versions} (hV : ParamsOK V) {c p : Hdr} {rest : List Hdr}
+    (hc : ValidChain V (c :: p :: rest)) (hp : p.nextVersion ≠ 0) (hcn : c.nextVersion ≠ 0) :
+    c.nextVersion = p.nextVersion ∧ c.nextVoteBefore = p.nextVoteBefore ∧ c.nextSwitchOn = p.nextSwitchOn ∧
+    (c.nextApprovals = p.nextApprovals ∨ (c.nextApprovals = p.nextApprovals + 1 ∧ c.number < p.nextVoteBefore)) := by
+  cases hc with
+  | step _ _ _ hprev hl =>
+    have hpo := stateOK_of_chain hV hprev
+    obtain ⟨hnum, hlt, hv⟩ := hl
+    obtain ⟨P, hP, h⟩ := (verify_ok_iff V p c).1 hv
+    obtain ⟨h1, h2, h3, h4, h5⟩ := hpo.opened hp P hP
+    have hpn := hpo.num
+    have hmod : c.number % U64 = c.number := Nat.mod_eq_of_lt (by simp only [U64]; omega)
+    simp only at h
+    rw [hmod] at h
+    split at h
+    · exact absurd h.2.1 hcn
+    · simp only [U64] at h
+      refine ⟨h.2.1, h.2.2.1, h.2.2.2.2.2, ?_⟩
+      omega
+
+/-- **A version switch needs a quorum collected inside the voting window, and waits.**
+Along any chain of verifier-accepted headers starting from a header without a proposal (header fields
+otherwise adversarial), if the version changes at `c` then: it changes at the round and to the version
+announced by the proposal open at its parent; the distinct blocks that approved that proposal
+(`approvers`, one approval each, the counter equals their number) all lie inside the voting window
+`[openedAt, NextVoteBefore)` fixed when the proposal was made, `NextVoteBefore = openedAt + UpgradeVoteRounds`;
+there are at least `UpgradeThreshold` of them; and the switch is at least `MinUpgradeWaitRounds` after the
+window closed. -/
+theorem switch_needs_quorum_in_window {V : Versions} (hV : ParamsOK V) {c p : Hdr} {rest : List Hdr}
+    (hc : ValidChain V (c :: p :: rest)) (hchg : c.currVersion ≠ p.currVersion) :
+    ∃ P, V p.currVersion = some P ∧
+      p.nextVersion ≠ 0 ∧ c.currVersion = p.nextVersion ∧ c.number = p.nextSwitchOn ∧
+      p.nextApprovals = (approvers (p :: rest)).length ∧
+      (approvers (p :: rest)).Nodup ∧
+      (∀ r ∈ approvers (p :: rest), openedAt (p :: rest) ≤ r ∧ r < p.nextVoteBefore) ∧
+      p.nextVoteBefore = openedAt (p :: rest) + P.upgradeVoteRounds ∧
+      P.upgradeThreshold ≤ (approvers (p :: rest)).length ∧
+      p.nextVoteBefore + P.minUpgradeWaitRounds ≤ c.number := by
+  cases hc with
+  | step _ _ _ hprev hl =>
+    have hpo := stateOK_of_chain hV hprev
+    obtain ⟨hnum, hlt, hv⟩ := hl
+    obtain ⟨hsw, hcv, _⟩ := version_changes_only_at_switch V p c hv hchg
+    obtain ⟨P, hP⟩ := hpo.known
+    have hpn := hpo.num
+    have hmod : c.number % U64 = c.number := Nat.mod_eq_of_lt (by simp only [U64]; omega)
+    rw [hmod] at hsw
+    have hpv : p.nextVersion ≠ 0 := by
+      intro h0
+      obtain ⟨_, _, _, hso⟩ := hpo.clean h0
+      omega
+    obtain ⟨h1, h2, h3, h4, h5⟩ := hpo.opened hpv P hP
+    have hPok := hV _ _ hP
+    have inv := chainInv_of_chain hV hprev hpv
+    refine ⟨P, hP, hpv, hcv, hsw.symm, inv.count, ?_, ?_, inv.voteBefore P hP, ?_, by omega⟩
+    · exact inv.distinct.imp (fun h => Nat.ne_of_gt h)
+    · intro r hr; have := inv.window r hr; exact ⟨this.1, this.2.1⟩
+    · rw [← inv.count]; apply h4; omega
+
+/-- **Every header the honest builder derives from a reachable parent is accepted by the verifier.**
+`p` is any header reachable through verifier-accepted links (so possibly shaped by adversarial
+ancestors); the builder starts from a fresh header (version fields zero, as `miner/worker.go` creates it).
+The only other outcome is the verifier's deliberate process exit when the version being switched to is
+unknown to the local node ("update the client"). -/
+theorem builder_accepted {V : Versions} (hV : ParamsOK V) {p : Hdr} {rest : List Hdr}
+    (hp : ValidChain V (p :: rest)) (hn : p.number + 1 < 2^62) (c : Hdr)
+    (hb : Gen.process V p { number := p.number + 1 } = (.ok, c)) :
+    c.number = p.number + 1 ∧
+    ((Gen.verify V p c).1 = .ok ∨
+     ((Gen.verify V p c).1 = .crash ∧ V c.currVersion = none ∧ c.currVersion = p.nextVersion ∧ c.number = p.nextSwitchOn)) := by
+  have hpo := stateOK_of_chain hV hp
+  obtain ⟨hnum, hcore⟩ := builder_core hV hpo hn _ c rfl hb
+  refine ⟨hnum, ?_⟩
+  rcases hcore with hs | ⟨hnone, hk, hsw, hv, h1, h2, h3, h4⟩
+  · exact Or.inl ((verify_ok_iff V p c).2 hs)
+  · refine Or.inr ⟨verify_crash_of V p c hk hsw hv h1 h2 h3 h4 hnone, hnone, hv.symm, ?_⟩
+    have hmod : c.number % U64 = c.number := Nat.mod_eq_of_lt (by simp only [U64]; omega)
+    omega
+
+/-- The hypotheses on the parameter table hold for every table the node ships (mainnet, testnet,
+test-case network), decided over the constants regenerated from `params.Versions`. -/
+theorem shipped_tables_ok : ∀ t ∈ Gen.shippedTables, ∀ e ∈ t, e.2.ok = true := by decide
+
+/-- `VParams.ok` for every entry is `ParamsOK` of the table read as a lookup function. -/
+theorem paramsOK_of_table (t : List (Nat × VParams)) (h : ∀ e ∈ t, e.2.ok = true) :
+    ParamsOK (fun k => (t.find? (·.1 == k)).map (·.2)) := by
+  intro k P hk
+  simp only [Option.map_eq_some_iff] at hk
+  obtain ⟨e, he, rfl⟩ := hk
+  have := h e (List.mem_of_find?_eq_some he)
+  simp only [VParams.ok, Bool.and_eq_true, decide_eq_true_eq] at this
+  omega
+
+/-! ### Known finding F-C12b: the property is false of the code for tables with `MinUpgradeWaitRounds = 0`
+(no shipped table; see `shipped_tables_ok`). Witnesses on the generated functions, replayed on the
+Go code by the harness (matcher `min-wait-zero`). -/
+
+def minZeroTable : Versions := fun k =>
+  if k = 1 then some { approvedUpgradeVersion := 2, upgradeVoteRounds := 2, upgradeThreshold := 2, minUpgradeWaitRounds := 0, maxUpgradeWaitRounds := 0 }
+  else if k = 2 then some { upgradeVoteRounds := 2, upgradeThreshold := 2 } else none
+
+/-- With `MinUpgradeWaitRounds = 0` the verifier accepts a switch backed by one approval where two are required … -/
+theorem min_wait_zero_counterexample :
+    (Gen.verify minZeroTable { number := 1, currVersion := 1 } { number := 2, currVersion := 1, nextVersion := 2, nextApprovals := 1, nextVoteBefore := 4, nextSwitchOn := 4 }).1 = .ok ∧
+    (Gen.verify minZeroTable { number := 2, currVersion := 1, nextVersion := 2, nextApprovals := 1, nextVoteBefore := 4, nextSwitchOn := 4 } { number := 3, currVersion := 1, nextVersion := 2, nextApprovals := 1, nextVoteBefore := 4, nextSwitchOn := 4 }).1 = .ok ∧
+    (Gen.verify minZeroTable { number := 3, currVersion := 1, nextVersion := 2, nextApprovals := 1, nextVoteBefore := 4, nextSwitchOn := 4 } { number := 4, currVersion := 2 }).1 = .ok := by decide
+
+/-- … and rejects the header the honest builder derives (which clears the failed proposal). -/
+theorem min_wait_zero_builder_rejected :
+    let p : Hdr := { number := 3, currVersion := 1, nextVersion := 2, nextApprovals := 1, nextVoteBefore := 4, nextSwitchOn := 4 }
+    (Gen.process minZeroTable p { number := 4 }) = (.ok, { number := 4, currVersion := 1 }) ∧
+    (Gen.verify minZeroTable p { number := 4, currVersion := 1 }).1 = .err 4 := by decide
+
+/-! ### Non-vacuity: the hypotheses are met by concrete, non-trivial chains (tests on literals, labelled as such). -/
+
+def demoTable : Versions := fun k =>
+  if k = 1 then some { approvedUpgradeVersion := 2, upgradeVoteRounds := 3, upgradeThreshold := 2, minUpgradeWaitRounds := 1, maxUpgradeWaitRounds := 4 }
+  else if k = 2 then some { upgradeVoteRounds := 3, upgradeThreshold := 2, minUpgradeWaitRounds := 1, maxUpgradeWaitRounds := 4 } else none
+
+example : ParamsOK demoTable := by
+  intro k P h
+  unfold demoTable at h
+  split at h
+  · cases h; decide
+  · split at h
+    · cases h; decide
+    · cases h
+
+/-- a chain in which version 1 → 2 is proposed at round 1, approved at rounds 1 and 2, and switched at round 5 -/
+def demoChain : List Hdr := [
+  { number := 5, currVersion := 2 },
+  { number := 4, currVersion := 1, nextVersion := 2, nextApprovals := 2, nextVoteBefore := 4, nextSwitchOn := 5 },
+  { number := 3, currVersion := 1, nextVersion := 2, nextApprovals := 2, nextVoteBefore := 4, nextSwitchOn := 5 },
+  { number := 2, currVersion := 1, nextVersion := 2, nextApprovals := 2, nextVoteBefore := 4, nextSwitchOn := 5 },
+  { number := 1, currVersion := 1, nextVersion := 2, nextApprovals := 1, nextVoteBefore := 4, nextSwitchOn := 5 },
+  { number := 0, currVersion := 1 }]
+
+example : ValidChain demoTable demoChain := by
+  unfold demoChain
+  repeat (first
+    | exact ValidChain.start _ (by simp [Clean]) (by decide) (by decide)
+    | refine ValidChain.step _ _ _ ?_ ⟨by decide, by decide, by decide⟩)
+
+example : approvers demoChain.tail = [2, 1] ∧ openedAt demoChain.tail = 1 := by decide
+
+/-- the builder reproduces the honest part of that chain -/
+example : Gen.process demoTable { number := 0, currVersion := 1 } { number := 1 } =
+    (.ok, { number := 1, currVersion := 1, nextVersion := 2, nextApprovals := 1, nextVoteBefore := 4, nextSwitchOn := 5 }) := by decide
+
+/-- regression for the repaired defect F-C12a: an approval at round = NextVoteBefore is rejected -/
+example : (Gen.verify demoTable
+    { number := 3, currVersion := 1, nextVersion := 2, nextApprovals := 1, nextVoteBefore := 4, nextSwitchOn := 5 }
+    { number := 4, currVersion := 1, nextVersion := 2, nextApprovals := 2, nextVoteBefore := 4, nextSwitchOn := 5 }).1 = .err 100 := by decide
 
 end YouVerif.C12.Props
